@@ -39,7 +39,7 @@ PROPS = {
                      "{1, I, T, C4z, Mx, T*Mx}, SaveNpz/LoadNpz to stores of EnergyResult, KBandResult, ResultDict and VoidResult objects with "
                      "integer (also complex) data and checks, on the model, commutativity, associativity, a-a=0, distributivity, 1*a=a, Void "
                      "neutrality, additivity of Transform and Load(Save(r))=r on all stored objects. quick: every one-operation behaviour of "
-                     "12 families, every two-operation behaviour of 3 families, every save/load behaviour of the 5 energy-resolved families "
+                     "14 families, every two-operation behaviour of 3 families, every save/load behaviour of the 5 energy-resolved families "
                      "and ~60 simulated behaviours of 4 operations are run on the real classes, every object compared exactly after every "
                      "step; thorough: two operations for all families and three start patterns, 1500 simulated behaviours of 5 operations; "
                      "its three-operation model (c16_mc3) is checked by TLC only and not replayed. The laws on the REAL classes are "
@@ -524,10 +524,19 @@ def record_sym(rng):
     g, grec = rand_sym(rng)
     s = rng.choice([-2, -1, 2, 3])
     mk = lambda o: RA.make_obj(o, cplx)
-    rec = dict(fn="sym", a=spec_rec(sa), b=spec_rec(sb), g=grec, s=s, cplx=cplx,
-               Ta=guarded(lambda: mk(sa).transform(g)), Tb=guarded(lambda: mk(sb).transform(g)),
-               Tab=guarded(lambda: (mk(sa) + mk(sb)).transform(g)), Ta_Tb=guarded(lambda: mk(sa).transform(g) + mk(sb).transform(g)),
-               Tsa=guarded(lambda: (s * mk(sa)).transform(g)))
+    # the law T(a + b) = T(a) + T(b) is about the SAME a and b on both sides: half of the records evaluate every term on one
+    # pair of real objects (in a seeded order), the other half on fresh copies
+    if rng.random() < 0.5:
+        ra, rb = mk(sa), mk(sb)
+        A, B = (lambda: ra), (lambda: rb)
+    else:
+        A, B = (lambda: mk(sa)), (lambda: mk(sb))
+    terms = dict(Ta=lambda: A().transform(g), Tb=lambda: B().transform(g), Tab=lambda: (A() + B()).transform(g),
+                 Ta_Tb=lambda: A().transform(g) + B().transform(g), Tsa=lambda: (s * A()).transform(g))
+    order = list(terms)
+    rng.shuffle(order)
+    vals = {k: guarded(terms[k]) for k in order}
+    rec = dict(fn="sym", a=spec_rec(sa), b=spec_rec(sb), g=grec, s=s, cplx=cplx, **vals)
     return rec, (sa, sb)
 
 
@@ -716,7 +725,7 @@ def _check(rep, replayer, runs, scratch, tier):
     RA.wb()
 
     # ---------------- spec -> code : exhaustive bounded model, behaviours replayed
-    fams = list(range(1, 13))
+    fams = list(range(1, 15))
     if thorough:
         run_model(rep, "c16_mc", runs.name("c16_mc"), mc_cfg(fams, 2, pairs="PairsB", act=("Inversion", "TimeReversal", "C4z", "TRMx")), replayer,
                   workers, 2, require=OPS)
